@@ -5263,6 +5263,7 @@ impl BytecodeVM {
                 // enclosing array pattern is consuming (rest patterns like [...rest] = arr).
                 let iter_val = self.get_reg(iterator);
 
+                let guard = interp.heap.create_guard();
                 let mut elements = Vec::new();
 
                 if let JsValue::Object(iter_obj) = iter_val {
@@ -5270,15 +5271,17 @@ impl BytecodeVM {
                     let array_prop = iter_obj
                         .borrow()
                         .get_property(&PropertyKey::String(interp.intern("__array__")));
+                    let string_prop = iter_obj
+                        .borrow()
+                        .get_property(&PropertyKey::String(interp.intern("__string__")));
+                    let index = match iter_obj
+                        .borrow()
+                        .get_property(&PropertyKey::String(interp.intern("__index__")))
+                    {
+                        Some(JsValue::Number(n)) => n as usize,
+                        _ => start_index as usize,
+                    };
                     if let Some(JsValue::Object(arr_ref)) = array_prop {
-                        let index = match iter_obj
-                            .borrow()
-                            .get_property(&PropertyKey::String(interp.intern("__index__")))
-                        {
-                            Some(JsValue::Number(n)) => n as usize,
-                            _ => start_index as usize,
-                        };
-
                         if let Some(elems) = arr_ref.borrow().array_elements() {
                             for i in index..elems.len() {
                                 if let Some(val) = elems.get(i) {
@@ -5286,10 +5289,47 @@ impl BytecodeVM {
                                 }
                             }
                         }
+                    } else if let Some(JsValue::String(s)) = string_prop {
+                        // Internal string iterator: the characters not yet taken
+                        for c in s.as_str().chars().skip(index) {
+                            elements.push(JsValue::String(JsString::from(c.to_string())));
+                        }
+                    } else {
+                        // Any other iterator (Set, Map, generator, user-defined): drain it
+                        // through next()
+                        let iter_obj = iter_obj.cheap_clone();
+                        let next_key = PropertyKey::String(interp.intern("next"));
+                        loop {
+                            let next_method = iter_obj.borrow().get_property(&next_key);
+                            let Some(JsValue::Object(next_fn)) = next_method else {
+                                return Err(JsError::type_error(
+                                    "Iterator must have a next method",
+                                ));
+                            };
+                            let Guarded {
+                                value: result,
+                                guard: _result_guard,
+                            } = interp.call_function(
+                                JsValue::Object(next_fn),
+                                JsValue::Object(iter_obj.cheap_clone()),
+                                &[],
+                            )?;
+                            let JsValue::Object(result_obj) = result else {
+                                break;
+                            };
+                            if interp.iterator_done(&result_obj)? {
+                                break;
+                            }
+                            let Guarded {
+                                value,
+                                guard: _value_guard,
+                            } = interp.iterator_value(&result_obj)?;
+                            value.guard_by(&guard);
+                            elements.push(value);
+                        }
                     }
                 }
 
-                let guard = interp.heap.create_guard();
                 let arr = interp.create_array_from(&guard, elements);
                 self.set_reg(dst, JsValue::Object(arr));
                 Ok(OpResult::Continue)
